@@ -31,7 +31,9 @@ FullNodes ==
     NK("SliceProbe", "a", ""), NK("SliceProbe", "factor", ""), N0("Sum"),
     N0("Sink"), N0("CtxW"), N0("CtxWBad"), N0("Boom"), N0("Abort"),
     NS("SweepSrc", <<1, 2>>), NS("SweepMul", <<2, 3>>), NK("SweepSrcCtx", "a", ""),
-    WithBogus(NC("Mul", "factor", 4)), WithBogus(N0("Sq")), WithBogus(NK("Rename", "a", "b")) }
+    WithBogus(NC("Mul", "factor", 4)), WithBogus(N0("Sq")), WithBogus(NK("Rename", "a", "b")),
+    N0("PSrc"), N0("PSrcInj"), N0("PSink"), N0("Touch"), NK("ProbeP", "a", ""),
+    Node("ProbeP", [x \in {"factor"} |-> 4], "factor", "", <<>>) }
 
 \* focus sets: fewer instances, longer programs
 FeedNodes ==   \* parameter feeding
